@@ -76,6 +76,17 @@ class RustHarness:
     """descs: list of dict(analyzed=<file json>, rust=<text emitted by pdlc>)."""
 
     def __init__(self, name, descs, profile="dev"):
+        # the crate is keyed by its content: checks that run at the same time with different corpora
+        # never share a directory or a binary, checks with the same corpus share one build
+        import hashlib
+        h = hashlib.sha256()
+        for d in descs:
+            h.update(d["rust"].encode())
+            h.update(b"\0")
+            h.update(json.dumps(d["analyzed"], sort_keys=True).encode())
+            h.update(b"\1")
+        h.update(open(os.path.join(TEMPLATE, "src", "main.rs"), "rb").read())
+        name = "%s-%s" % (name, h.hexdigest()[:10])
         self.name, self.descs, self.profile = name, descs, profile
         self.dir = os.path.join(C.CACHE, "rustgen", name)
         self.bin = os.path.join(TARGET, name, "release" if profile == "release" else "debug", "rust-gen")
@@ -120,7 +131,25 @@ class RustHarness:
         with C.Lock("rustgen-" + self.name):
             rc, out = C.run(cmd, cwd=self.dir, env=env, timeout=3600)
         self.build_log = out
+        if rc == 0:
+            self.prune()
         return rc == 0
+
+    def prune(self, keep=10, min_age=3 * 3600):
+        """drop the least recently used harness crates (and their build output) beyond `keep`,
+        never one that was used in the last `min_age` seconds"""
+        import shutil, time
+        try:
+            os.utime(self.dir, None)
+            root = os.path.join(C.CACHE, "rustgen")
+            names = sorted(os.listdir(root), key=lambda n: os.path.getmtime(os.path.join(root, n)), reverse=True)
+            for n in names[keep:]:
+                if time.time() - os.path.getmtime(os.path.join(root, n)) < min_age:
+                    continue
+                shutil.rmtree(os.path.join(root, n), ignore_errors=True)
+                shutil.rmtree(os.path.join(TARGET, n), ignore_errors=True)
+        except OSError:
+            pass
 
     def start(self, timeout=10.0):
         self.proc = C.LineProc([self.bin], timeout=timeout)
